@@ -2,6 +2,7 @@ import Pyrtma.Proofs.ManagerStatsSpec
 import Pyrtma.Proofs.ManagerStatsEv
 import Pyrtma.Proofs.ManagerStatsQuiet
 import Pyrtma.Proofs.ManagerSafe
+import Pyrtma.Proofs.ManagerStatsRecv
 /-!
 # Simulation between the Spec's abstract state and the model, for the statistics (C18)
 
@@ -275,6 +276,144 @@ theorem splitRd_flat (l : List (Nat × List Ev)) (hl : NoRdSegs l) (T : List Ev)
     rw [e1, splitRd_rd, splitRd_noRd p.2 hp, ih hl', addLast_cons]
     simp
 
+theorem addLast_isEmpty (l : List (Nat × List Ev)) (T : List Ev) : (addLast l T).isEmpty = l.isEmpty := by
+  cases l with
+  | nil => rfl
+  | cons p l => rw [addLast_cons]; rfl
+
+theorem addLast_dropLast : ∀ (l : List (Nat × List Ev)) (T : List Ev), (addLast l T).dropLast = l.dropLast
+  | [], _ => rfl
+  | [p], _ => by simp [addLast]
+  | p :: q :: r, T => by
+    have ih := addLast_dropLast (q :: r) T
+    simp only [addLast, List.dropLast_cons₂] at ih ⊢
+    cases hq : addLast (q :: r) T with
+    | nil => rw [addLast_cons] at hq; cases hq
+    | cons x y => rw [hq] at ih; simp [List.dropLast, ih]
+
+theorem addLast_getLast : ∀ (l : List (Nat × List Ev)) (T : List Ev),
+    (addLast l T).getLast? = l.getLast?.map (fun p => (p.1, p.2 ++ T))
+  | [], _ => rfl
+  | [p], _ => by simp [addLast]
+  | p :: q :: r, T => by
+    have ih := addLast_getLast (q :: r) T
+    rw [addLast, List.getLast?_cons_cons] 
+    cases hq : addLast (q :: r) T with
+    | nil => rw [addLast_cons] at hq; cases hq
+    | cons x y => rw [hq] at ih; rw [List.getLast?_cons_cons, ih]
+
+/-! ## the tally of manager-originated frames against `msc` -/
+
+theorem noteRecv_cons (c : List ((Nat × Int) × Nat)) (e : Ev) (evs : List Ev) :
+    noteRecv c (e :: evs) = noteRecv (match e with
+      | .send u _ f => if notedBody f.body then bumpRecv c (u, f.mtype) else c
+      | _ => c) evs := by
+  unfold noteRecv
+  cases e with
+  | send u n f =>
+    simp only [sends, List.filterMap_cons, List.foldl_cons]
+    congr 1
+    cases f.body <;> rfl
+  | partialW _ => rfl
+  | wfail _ => rfl
+  | close _ => rfl
+  | rd _ => rfl
+
+theorem bumpRecv_bound (c : List ((Nat × Int) × Nat)) (k : Nat × Int) (Bd : Nat × Int → Nat)
+    (hB : ∀ q ∈ c, q.2 ≤ Bd q.1) : ∀ q ∈ bumpRecv c k, q.2 ≤ Bd q.1 + (if q.1 = k then 1 else 0) := by
+  intro q hq
+  unfold bumpRecv at hq
+  split at hq
+  · obtain ⟨p, hp, rfl⟩ := List.mem_map.mp hq
+    have hb := hB p hp
+    by_cases hk : p.1 = k
+    · have e : (p.1 == k) = true := by simp [hk]
+      simp only [e, if_true]
+      show p.2 + 1 ≤ Bd p.1 + (if p.1 = k then 1 else 0)
+      rw [if_pos hk]; omega
+    · have e : (p.1 == k) = false := by simpa using hk
+      simp only [e, Bool.false_eq_true, if_false]
+      rw [if_neg hk]; omega
+  · rcases List.mem_append.mp hq with h | h
+    · have := hB q h; omega
+    · simp at h; subst h; simp
+
+theorem noteRecv_bound : ∀ (evs : List Ev) (c : List ((Nat × Int) × Nat)) (Bd : Nat × Int → Nat),
+    (∀ q ∈ c, q.2 ≤ Bd q.1) → ∀ q ∈ noteRecv c evs, q.2 ≤ Bd q.1 + msc q.1.1 q.1.2 evs
+  | [], c, Bd, hB => fun q hq => by simpa [noteRecv, sends, msc] using hB q hq
+  | e :: evs, c, Bd, hB => by
+    intro q hq
+    rw [noteRecv_cons] at hq
+    have hstep : ∀ p ∈ (match e with
+        | .send u _ f => if notedBody f.body then bumpRecv c (u, f.mtype) else c
+        | _ => c), p.2 ≤ Bd p.1 + (if isNoted p.1.1 p.1.2 e then 1 else 0) := by
+      intro p hp
+      cases e with
+      | send u n f =>
+        simp only at hp
+        split at hp
+        · rename_i hn
+          have := bumpRecv_bound c (u, f.mtype) Bd hB p hp
+          have e1 : (isNoted p.1.1 p.1.2 (Ev.send u n f)) = decide (p.1 = (u, f.mtype)) := by
+            show (u == p.1.1 && f.mtype == p.1.2 && notedBody f.body) = _
+            rw [hn, Bool.and_true]
+            cases p with | mk k v => cases k with | mk a b =>
+            simp only [Prod.mk.injEq]
+            by_cases h1 : u = a
+            · by_cases h2 : f.mtype = b
+              · subst h1 h2; simp
+              · have h3 : ¬ b = f.mtype := fun e => h2 e.symm
+                have h4 : (f.mtype == b) = false := by simpa using h2
+                subst h1; simp [h3, h4]
+            · have : ¬ a = u := fun e => h1 e.symm
+              simp [h1, this]
+          rw [e1]
+          by_cases hk : p.1 = (u, f.mtype) <;> simp [hk] at this ⊢ <;> omega
+        · have := hB p hp; omega
+      | partialW _ => have := hB p hp; simp only at hp; omega
+      | wfail _ => have := hB p hp; simp only at hp; omega
+      | close _ => have := hB p hp; simp only at hp; omega
+      | rd _ => have := hB p hp; simp only at hp; omega
+    have := noteRecv_bound evs _ (fun k => Bd k + (if isNoted k.1 k.2 e then 1 else 0)) hstep q hq
+    have e2 : msc q.1.1 q.1.2 (e :: evs) = (if isNoted q.1.1 q.1.2 e then 1 else 0) + msc q.1.1 q.1.2 evs := by
+      unfold msc; rw [List.countP_cons]; omega
+    rw [e2]; omega
+
+theorem noteAll_recvT (cfg : Cfg) : ∀ (l : List (List Ev)) (a : A),
+    (l.foldl (noteMgrFrames cfg) a).recvT = l.foldl noteRecv a.recvT ∧ (l.foldl (noteMgrFrames cfg) a).recvR = l.foldl noteRecv a.recvR
+  | [], _ => ⟨rfl, rfl⟩
+  | e :: l, a => by
+    simp only [List.foldl_cons]
+    have := noteAll_recvT cfg l (noteMgrFrames cfg a e)
+    rw [noteMgrFrames_eq] at this ⊢
+    exact this
+
+theorem noteAll_bound : ∀ (l : List (List Ev)) (c : List ((Nat × Int) × Nat)) (Bd : Nat × Int → Nat),
+    (∀ q ∈ c, q.2 ≤ Bd q.1) → ∀ q ∈ l.foldl noteRecv c, q.2 ≤ Bd q.1 + msc q.1.1 q.1.2 l.flatten
+  | [], c, Bd, hB => fun q hq => by simpa [msc] using hB q hq
+  | e :: l, c, Bd, hB => by
+    intro q hq
+    simp only [List.foldl_cons] at hq
+    have := noteAll_bound l _ (fun k => Bd k + msc k.1 k.2 e) (noteRecv_bound e c Bd hB) q hq
+    simp only [List.flatten_cons, msc_append]
+    omega
+
+theorem msc_flatSegs (o : Nat) (t : Int) (l : List (Nat × List Ev)) :
+    msc o t (flatSegs l) = msc o t (l.map (·.2)).flatten := by
+  induction l with
+  | nil => rfl
+  | cons p l ih =>
+    have e1 : flatSegs (p :: l) = (.rd p.1 :: p.2) ++ flatSegs l := by simp [flatSegs]
+    rw [e1, msc_append, ih]
+    simp only [List.map_cons, List.flatten_cons, msc_append]
+    unfold msc; simp [List.countP_cons, isNoted]
+
+theorem msc_dropLast_le (o : Nat) (t : Int) (l : List (Nat × List Ev)) :
+    msc o t (l.dropLast.map (·.2)).flatten ≤ msc o t (l.map (·.2)).flatten := by
+  rcases List.eq_nil_or_concat l with rfl | ⟨l', x, rfl⟩
+  · simp
+  · simp [List.dropLast_concat, msc_append]
+
 /-! ## the simulation relation -/
 
 /-- what holds of every reachable model state, whatever its event log -/
@@ -521,11 +660,11 @@ theorem accept_sim {y : State} {a : A} (hI : MInv cfg y) (hS : Sim cfg y a) :
     the last of them in the round's log (the periodic section) -/
 theorem go_sim : ∀ (reads : List Read) {y : State} {a : A}, MInv cfg y → Sim cfg y a → (∀ rd ∈ reads, rd.uid ≠ 0) →
     ∃ segs a', (readAll cfg reads y).out = y.out ++ flatSegs segs ∧ NoRdSegs segs ∧
-      MInv cfg (readAll cfg reads y) ∧ Sim cfg (readAll cfg reads y) a' ∧
+      MInv cfg (readAll cfg reads y) ∧ Sim cfg (readAll cfg reads y) a' ∧ a'.recvT = a.recvT ∧ a'.recvR = a.recvR ∧
       ∀ T, NoRd T → acksOf T = [] →
         goCore cfg (applyDepartures a (if segs = [] then T else [])) reads (addLast segs T) = applyDepartures a' T
   | [], y, a, hI, hS, _ => by
-    refine ⟨[], a, (by simp [readAll, flatSegs]), (fun _ h => by cases h), hI, hS, fun T _ _ => ?_⟩
+    refine ⟨[], a, (by simp [readAll, flatSegs]), (fun _ h => by cases h), hI, hS, rfl, rfl, fun T _ _ => ?_⟩
     simp [goCore]
   | rd :: rest, y, a, hI, hS, h0 => by
     have h0' : ∀ r ∈ rest, r.uid ≠ 0 := fun r hr => h0 r (by simp [hr])
@@ -534,8 +673,8 @@ theorem go_sim : ∀ (reads : List Read) {y : State} {a : A}, MInv cfg y → Sim
     | none =>
       have hy : readOne cfg y rd = y := by unfold readOne; simp [hm]
       rw [hy]
-      obtain ⟨segs, a', ho, hn, hI', hS', hgo⟩ := go_sim rest hI hS h0'
-      refine ⟨segs, a', ho, hn, hI', hS', fun T hT hA => ?_⟩
+      obtain ⟨segs, a', ho, hn, hI', hS', hrT, hrR, hgo⟩ := go_sim rest hI hS h0'
+      refine ⟨segs, a', ho, hn, hI', hS', hrT, hrR, fun T hT hA => ?_⟩
       rw [← hgo T hT hA]
       generalize (if segs = [] then T else []) = L
       conv => lhs; unfold goCore
@@ -555,8 +694,9 @@ theorem go_sim : ∀ (reads : List Read) {y : State} {a : A}, MInv cfg y → Sim
     | some m =>
       obtain ⟨e, am, ho1, hne, hget, halive, hS1⟩ := read_sim ok hfuel hI hS rd m hm (h0 rd (by simp))
       have hI1 := minv_readOne ok hfuel hI rd
-      obtain ⟨segs', a', ho, hn, hI', hS', hgo⟩ := go_sim rest hI1 hS1 h0'
-      refine ⟨(rd.uid, e) :: segs', a', ?_, ?_, hI', hS', fun T hT hA => ?_⟩
+      obtain ⟨segs', a', ho, hn, hI', hS', hrT, hrR, hgo⟩ := go_sim rest hI1 hS1 h0'
+      refine ⟨(rd.uid, e) :: segs', a', ?_, ?_, hI', hS', by rw [hrT, applyDepartures_eq]; rfl,
+        by rw [hrR, applyDepartures_eq]; rfl, fun T hT hA => ?_⟩
       · rw [ho, ho1]; simp [flatSegs]
       · intro p hp
         rcases List.mem_cons.mp hp with rfl | hp
@@ -571,6 +711,119 @@ theorem go_sim : ∀ (reads : List Read) {y : State} {a : A}, MInv cfg y → Sim
           · simp [acksOf, sends]
         rw [hacks, dep_append]
         exact hgo T hT hA
+
+/-! ## a whole round up to the periodic section -/
+
+omit ok hfuel in
+theorem sim_w {x : State} {a : A} (h : Sim cfg x a) (w : List Nat) : Sim cfg x { a with w := w } :=
+  ⟨h.now, h.tT, h.tR, h.tI, h.seq, h.nacc, h.uids, h.alive, h.fail, h.pubT, h.pubR⟩
+
+omit ok hfuel in
+/-- the frames the Spec expects to be read are the frames the model reads -/
+theorem roundReads_eq {x : State} {a : A} (hI : MInv cfg x) (hS : Sim cfg x a) (r : Round) (h0 : ∀ rd ∈ r.reads, rd.uid ≠ 0) :
+    roundReads a r = r.reads.filter (fun rd => ((envStep x r).find rd.uid).isSome) := by
+  unfold roundReads
+  apply List.filter_congr
+  intro rd hrd
+  have hfind : (envStep x r).find rd.uid = x.find rd.uid := rfl
+  rw [hfind, ← isOpen_iff_find hI.top]
+  rw [Bool.eq_iff_iff]
+  simp only [List.contains_eq_mem, List.mem_map, List.mem_filter, decide_eq_true_eq]
+  constructor
+  · rintro ⟨am, ⟨hmem, hal⟩, hu⟩
+    rw [← hu, ← hS.alive am hmem]; exact hal
+  · intro hop
+    have hfs : (x.find rd.uid).isSome = true := by rw [← isOpen_iff_find hI.top]; exact hop
+    obtain ⟨m, hm⟩ := Option.isSome_iff_exists.mp hfs
+    have hb : rd.uid ≤ x.nextUid := by have := hI.k.bound m (mem_of_find hm); rw [find_uid hm] at this; exact this
+    obtain ⟨am, _, hmem, hu⟩ := sim_get hS (Nat.pos_of_ne_zero (h0 rd hrd)) hb
+    exact ⟨am, ⟨hmem, by rw [hS.alive am hmem, hu]; exact hop⟩, hu⟩
+
+/-- **the I/O part of a round**: after the clock/environment step, the accept and all frames read, the model state
+    corresponds to the abstract state `a'`, and `goCore` on the round's log (`T` = whatever the periodic section will
+    append) yields `a'` with the departures of `T` -/
+theorem pre_sim {x : State} {a : A} (hI : MInv cfg x) (hS : Sim cfg x a) (hx : x.out = []) (hna : MgrNotAll cfg)
+    (hord : OrderGood cfg) (r : Round) (h0 : ∀ rd ∈ r.reads, rd.uid ≠ 0) :
+    ∃ preM segs a',
+      (ioStep cfg (envStep x r) r.accept r.writable (r.reads.filter (fun rd => ((envStep x r).find rd.uid).isSome))).out =
+        preM ++ flatSegs segs ∧ NoRd preM ∧ NoRdSegs segs ∧
+      MInv cfg (ioStep cfg (envStep x r) r.accept r.writable (r.reads.filter (fun rd => ((envStep x r).find rd.uid).isSome))) ∧
+      Sim cfg (ioStep cfg (envStep x r) r.accept r.writable (r.reads.filter (fun rd => ((envStep x r).find rd.uid).isSome))) a' ∧
+      RB (envStep x r) (ioStep cfg (envStep x r) r.accept r.writable (r.reads.filter (fun rd => ((envStep x r).find rd.uid).isSome))) zeroX ∧
+      a'.recvT = a.recvT ∧ a'.recvR = a.recvR ∧
+      ∀ T, NoRd T → acksOf T = [] →
+        goCore cfg (applyDepartures (roundEnv a r) (preM ++ if segs = [] then T else [])) (roundReads a r) (addLast segs T) =
+          applyDepartures a' T := by
+  rw [roundReads_eq hI hS r h0]
+  generalize hreads : r.reads.filter (fun rd => ((envStep x r).find rd.uid).isSome) = reads
+  have h0' : ∀ rd ∈ reads, rd.uid ≠ 0 := fun rd hrd => h0 rd (by rw [← hreads] at hrd; exact (List.mem_filter.mp hrd).1)
+  have hI1 : MInv cfg (envStep x r) := minv_same ok hfuel hI rfl rfl rfl rfl rfl rfl rfl rfl
+  have hx1 : (envStep x r).out = [] := hx
+  -- the abstract state after the clock / environment step
+  have hS1 : Sim cfg (envStep x r) { a with now := a.now + r.dt, fail := (r.failSet.filter (·.1 ≤ a.nAccepted)).foldl (fun fl (p : Nat × Option FailMode) => setFail fl p.1 p.2) a.fail } := by
+    refine ⟨?_, hS.tT, hS.tR, hS.tI, hS.seq, hS.nacc, hS.uids, hS.alive, ?_, hS.pubT, hS.pubR⟩
+    · show a.now + r.dt = x.now + r.dt; rw [hS.now]
+    · show _ = (r.failSet.filter (·.1 ≤ x.nextUid)).foldl (fun fl p => setFail fl p.1 p.2) x.fail
+      rw [hS.nacc, hS.fail]
+  generalize ha1 : ({ a with now := a.now + r.dt, fail := (r.failSet.filter (·.1 ≤ a.nAccepted)).foldl (fun fl (p : Nat × Option FailMode) => setFail fl p.1 p.2) a.fail } : A) = a1 at hS1
+  have hr1T : a1.recvT = a.recvT := by subst ha1; rfl
+  have hr1R : a1.recvR = a.recvR := by subst ha1; rfl
+  have hrE : roundEnv a r =
+      (let a2 := if r.accept then { a1 with nAccepted := a1.nAccepted + 1, mods := a1.mods ++ [{ uid := a1.nAccepted + 1 }] } else a1
+       if r.accept || !reads.isEmpty then
+         { a2 with w := if reads.isEmpty then [] else r.writable.filter (((a2.mods.filter (·.alive)).map (·.uid)).contains ·) }
+       else a2) := by
+    have hrr := roundReads_eq hI hS r h0
+    unfold roundReads at hrr
+    unfold roundEnv
+    simp only [hrr, hreads, ← ha1]
+  rw [hrE]
+  generalize hx1e : envStep x r = x1 at hI1 hx1 hS1
+  unfold ioStep
+  by_cases hC : (r.accept || !reads.isEmpty) = true
+  · simp only [hC, if_true]
+    -- the accept
+    have hacc : ∃ preM, (if r.accept = true then acceptStep cfg x1 else x1).out = preM ∧ NoRd preM ∧
+        MInv cfg (if r.accept = true then acceptStep cfg x1 else x1) ∧
+        Sim cfg (if r.accept = true then acceptStep cfg x1 else x1)
+          (applyDepartures (if r.accept = true then { a1 with nAccepted := a1.nAccepted + 1, mods := a1.mods ++ [{ uid := a1.nAccepted + 1 }] } else a1) preM) ∧
+        RB x1 (if r.accept = true then acceptStep cfg x1 else x1) zeroX := by
+      by_cases hacc : r.accept = true
+      · simp only [hacc, if_true]
+        obtain ⟨pre, ho, hn, hIa, hSa⟩ := accept_sim ok hfuel hI1 hS1
+        exact ⟨pre, by rw [ho, hx1]; rfl, hn, hIa, hSa, accept_rb ok hfuel hna hord hI1.top⟩
+      · simp only [hacc, Bool.false_eq_true, if_false]
+        exact ⟨[], hx1, NoRd.nil, hI1, by rw [dep_nil]; exact hS1, RB.refl x1⟩
+    obtain ⟨preM, hoA, hnA, hIA, hSA, hrbA⟩ := hacc
+    generalize hxA : (if r.accept = true then acceptStep cfg x1 else x1) = xA at hoA hIA hSA hrbA
+    generalize ha2 : (if r.accept = true then ({ a1 with nAccepted := a1.nAccepted + 1, mods := a1.mods ++ [{ uid := a1.nAccepted + 1 }] } : A) else a1) = a2 at hSA
+    have hr2T : a2.recvT = a1.recvT := by subst ha2; split <;> rfl
+    have hr2R : a2.recvR = a1.recvR := by subst ha2; split <;> rfl
+    -- the writable set
+    generalize hw : (if reads.isEmpty = true then [] else List.filter (fun x => (List.map (fun x => x.uid) xA.mods).contains x) r.writable) = wl
+    generalize hwa : (if reads.isEmpty = true then []
+      else List.filter (fun x => (List.map (fun x => x.uid) (List.filter (fun x => x.alive) a2.mods)).contains x) r.writable) = wa
+    have hIW : MInv cfg ({ xA with wlist := wl } : State) := minv_same ok hfuel hIA rfl rfl rfl rfl rfl rfl rfl rfl
+    have hSW : Sim cfg ({ xA with wlist := wl } : State) (applyDepartures ({ a2 with w := wa } : A) preM) := by
+      have e1 : applyDepartures ({ a2 with w := wa } : A) preM = { applyDepartures a2 preM with w := wa } := by
+        rw [applyDepartures_eq, applyDepartures_eq]
+      rw [e1]
+      have := sim_w hSA wa
+      exact ⟨this.now, this.tT, this.tR, this.tI, this.seq, this.nacc, this.uids, this.alive, this.fail, this.pubT, this.pubR⟩
+    obtain ⟨segs, a', ho, hn, hI', hS', hrT, hrR, hgo⟩ := go_sim ok hfuel reads hIW hSW h0'
+    refine ⟨preM, segs, a', by rw [ho]; show xA.out ++ _ = _; rw [hoA], hnA, hn, hI', hS', ?_, ?_, ?_, fun T hT hA => ?_⟩
+    · exact (hrbA.trans0 (rb_same (s' := { xA with wlist := wl }) rfl rfl rfl)).trans0 (readAll_rb ok hfuel hna hord reads hIW.top)
+    · rw [hrT, applyDepartures_eq]; show a2.recvT = _; rw [hr2T, hr1T]
+    · rw [hrR, applyDepartures_eq]; show a2.recvR = _; rw [hr2R, hr1R]
+    · rw [dep_append]; exact hgo T hT hA
+  · have hC' : (r.accept || !reads.isEmpty) = false := by simpa using hC
+    simp only [hC', Bool.false_eq_true, if_false]
+    simp only [Bool.or_eq_false_iff, Bool.not_eq_false'] at hC'
+    have hre : reads = [] := by cases reads with | nil => rfl | cons _ _ => simp at hC'
+    simp only [hC'.1, Bool.false_eq_true, if_false]
+    refine ⟨[], [], a1, by simp [flatSegs, hx1], NoRd.nil, (fun _ h => by cases h), hI1, hS1, RB.refl x1, hr1T, hr1R, fun T _ _ => ?_⟩
+    subst hre
+    simp [goCore]
 
 end withcfg
 
